@@ -160,13 +160,25 @@ def schL : List Ty → Bool
 termination_by structural ts => ts
 def schF : List (FieldInfo × Ty) → Bool
   | [] => true
-  | (f, t) :: fs => !f.fbod && t.sch && schF fs
+  | (f, t) :: fs => !f.fbod && f.requiredBy.isEmpty && t.sch && schF fs
 termination_by structural fs => fs
 def schOpt : List Ty → Bool
   | [t, .null] => t.optInner && t.sch
   | _ => false
 termination_by structural ts => ts
 end
+
+/-- the schema fragment has no `dependent_required` (the builder's `dependentRequired` keyword is not modelled) -/
+theorem schF_noDeps : ∀ {fs : List (FieldInfo × Ty)}, schF fs = true → ∀ f ∈ infosOf fs, f.requiredBy = []
+  | [], _, f, hf => by cases hf
+  | (g, t) :: fs, h, f, hf => by
+    rw [schF] at h
+    simp only [Bool.and_eq_true, Bool.not_eq_true', List.isEmpty_iff] at h
+    unfold infosOf at hf; rw [List.map_cons] at hf
+    rcases List.mem_cons.1 hf with rfl | hm
+    · exact h.1.1.2
+    · exact schF_noDeps h.2 f hm
+
 
 theorem schOpt_cases {ts : List Ty} (h : schOpt ts = true) :
     ∃ t, ts = [t, .null] ∧ t.optInner = true ∧ t.sch = true := by
@@ -664,7 +676,8 @@ theorem schema_iff_conforms (ap : Bool) :
     case dict kvs =>
       rw [Py.sane] at hs
       have hc : consOk cs (.dict kvs) = (cs.dictErrors kvs.length).isEmpty := by simp [consOk, Py.num?]
-      simp only [dictOk, hc, ih kvs h hs, propNames_buildDF, noUnexpected, Bool.and_assoc]
+      simp only [dictOk, hc, ih kvs h hs, propNames_buildDF, noUnexpected, Bool.and_assoc,
+        depOk_of_noDeps (schF_noDeps h) kvs, Bool.and_true]
   · intro cs d t h; cases h
   · intro cs t ts d iht _ t0 heq
     cases heq; exact iht
